@@ -354,7 +354,7 @@ func vkC09Cfg(dir string) *config.Config {
 	cfg.Maxdepth = 30
 	cfg.Expire = 600
 	cfg.CacheSize = 1024
-	cfg.Timeout.Duration = 700 * time.Millisecond
+	cfg.Timeout.Duration = 3 * time.Second
 	cfg.Directory = dir
 	cfg.DNSSEC = "on"
 	return cfg
@@ -427,6 +427,8 @@ type vkC09World struct {
 	faults    int  // injected faults that fired (incl. corruption, crash)
 	faultKind string // first injected fault: dual | fail:tomb | fail:state | tombloop | corrupt:tomb | corrupt:state | crash
 	lastPreDg string // digest before the last refresh
+	lastResult string // AutoTA's own refresh-result metric for the last refresh
+	faultsBeforeLast int
 	fresh     bool // no AutoTA yet on this Resolver
 	lastLog   []vos.Op
 	lastPre   map[string][]byte
@@ -599,6 +601,23 @@ func vkC09Corrupt(shape int, valid []byte) []byte {
 	}
 }
 
+// vkC09ResultCounters reads AutoTA's refresh-result metrics (exactly one is incremented per run).
+func vkC09ResultCounters() [6]int64 {
+	return [6]int64{taRefreshSuccess.Value(), taRefreshWorkBudget.Value(), taRefreshTimeout.Value(),
+		taRefreshQueryError.Value(), taRefreshValidationError.Value(), taRefreshPersistenceError.Value()}
+}
+
+func vkC09ResultDiff(a, b [6]int64) string {
+	names := []string{"success", "work_budget", "timeout", "query_error", "validation_error", "persistence_error"}
+	var out []string
+	for i := range a {
+		if b[i] != a[i] {
+			out = append(out, names[i])
+		}
+	}
+	return strings.Join(out, "+")
+}
+
 // ---------------------------------------------------------------- applying events
 
 type vkC09Viol struct {
@@ -653,6 +672,7 @@ func (w *vkC09World) refresh(ev vkC09Ev) (*vkC09Viol, string) {
 	root.cur.Store(pub)
 	pre := w.observe()
 	refBefore := w.ref.clone()
+	w.faultsBeforeLast = w.faults
 	w.lastPreDg = w.digest(pre)
 
 	// ---- install the fault
@@ -693,11 +713,13 @@ func (w *vkC09World) refresh(ev vkC09Ev) (*vkC09Viol, string) {
 		}
 	}
 	q0 := root.queries.Load()
+	res0 := vkC09ResultCounters()
 	vos.Plan = plan
 	w.r.AutoTA()
 	vos.Plan = nil
 	root.hook.Store(nil)
 	asked := root.queries.Load() > q0
+	w.lastResult = vkC09ResultDiff(res0, vkC09ResultCounters())
 	fired := false
 	switch ev.Fault {
 	case "fail":
@@ -782,10 +804,13 @@ func (w *vkC09World) judge(ev vkC09Ev, pub *vkC09Pub, pre, post vkC09Obs, asked,
 		}
 		return nil, "failclosed-corrupt-tombstones"
 	}
+	switch w.lastResult {
+	case "timeout", "query_error", "work_budget":
+		// the loopback exchange itself failed (machine overloaded): not a verdict, the history is replayed
+		return &vkC09Viol{Key: "transient", Msg: "transient: AutoTA reported " + w.lastResult}, "transient"
+	}
 	if !asked {
-		// no query reached the root (e.g. no candidate at all and the implementation gave up early is NOT this:
-		// AutoTA always queries) — treat as harness trouble
-		return &vkC09Viol{Key: "harness", Msg: "harness: AutoTA did not query the scripted root"}, "harness"
+		return &vkC09Viol{Key: "harness", Msg: "harness: AutoTA did not query the scripted root (result " + w.lastResult + ")"}, "harness"
 	}
 	st := w.ref.classify(pub)
 	w.ref.apply(&st, now)
@@ -814,9 +839,14 @@ func (w *vkC09World) judge(ev vkC09Ev, pub *vkC09Pub, pre, post vkC09Obs, asked,
 		}
 		switch {
 		case v == vkMustNot && in:
-			key := "c-untrusted-key-trusted|" + b + "|" + ft + vkC09FaultClass(ev, fired, w)
+			fc := vkC09FaultClass(ev, fired, w)
+			who := "|" + b + "|no-fault"
+			if fc != "" {
+				who = fc // fault-induced classes are keyed by the fault, not by the key they happen to hit
+			}
+			key := "c-untrusted-key-trusted" + who
 			if k.St == vkRevoked {
-				key = "a-revoked-key-trusted|" + b + "|" + ft + vkC09FaultClass(ev, fired, w)
+				key = "a-revoked-key-trusted" + who
 				for _, rb := range st.Revoked {
 					if rb == b { // the very refresh that carries the revocation
 						key = "a-revocation-ignored|" + b + "|pub=" + pub.Name
@@ -826,12 +856,12 @@ func (w *vkC09World) judge(ev vkC09Ev, pub *vkC09Pub, pre, post vkC09Obs, asked,
 					}
 				}
 			} else if k.St == vkAddPend {
-				key = "c-key-trusted-before-holddown|" + b + "|" + ft + vkC09FaultClass(ev, fired, w)
+				key = "c-key-trusted-before-holddown" + who
 			}
 			// every divergence that follows a revocation no record could hold has that one root cause
 			for _, vb := range vkC09Bases {
 				if vk := w.ref.K[vb]; vk.St == vkRevoked && vk.Vol {
-					key = "a-unpersisted-revocation-forgotten-in-process|" + vb
+					key = "a-unpersisted-revocation-forgotten-in-process"
 				}
 			}
 			return &vkC09Viol{Key: key,
@@ -868,6 +898,23 @@ func (w *vkC09World) judge(ev vkC09Ev, pub *vkC09Pub, pre, post vkC09Obs, asked,
 			return &vkC09Viol{Key: "c-foreign-key-trusted|" + n, Msg: "live trust set contains " + n}, ""
 		}
 	}
+	// (a) an accepted revocation leaves a record (tombstone, or the Revoked marker in the state file)
+	// unless neither file could be written
+	// (like every MUST-type demand: only in histories without an injected fault)
+	if w.faults == 0 {
+		for _, b := range st.Revoked {
+			pe, had := pre.State[b]
+			known := pre.I[b] || (had && (pe.State == StateValid || pe.State == StateMissing))
+			rec := post.Tomb[b] || post.State[b].State == StateRevoked
+			if known && !rec {
+				key := "a-revocation-ignored|" + b + "|pub=" + pub.Name
+				if fired {
+					key += "|fault=" + ev.Fault
+				}
+				return &vkC09Viol{Key: key, Msg: fmt.Sprintf("publication %s carries the self-signed revocation of trust anchor %s in a set the reference accepts (%s), but no record of the revocation exists afterwards: {%s}", pub.Name, b, st.Auth, vkC09ObsStr(post))}, ""
+			}
+		}
+	}
 	// (b) a response no trusted key authenticates changes nothing
 	if st.Auth == "none" {
 		if !vkC09SameFiles(pre.Files, post.Files) && ev.Fault != "tombloop" {
@@ -883,8 +930,8 @@ func (w *vkC09World) judge(ev vkC09Ev, pub *vkC09Pub, pre, post vkC09Obs, asked,
 			rev[b] = true
 		}
 		for n, e := range pre.State {
-			if rev[vkC09Base(n)] || e.State == StateRevoked || e.State == StateRemoved {
-				continue // the revoked key itself / a marker that only waits for its tombstone
+			if rb := w.lastRefB.K[vkC09Base(n)]; rev[vkC09Base(n)] || e.State == StateRevoked || e.State == StateRemoved || (rb != nil && rb.St == vkRevoked) {
+				continue // the revoked key itself / a marker that only waits for its tombstone / a stale record of a revoked key
 			}
 			if e2, ok := post.State[n]; !ok || e2.State != e.State || !e2.First.Equal(e.First) {
 				return &vkC09Viol{Key: "b-revocation-only-changed-other-key|" + n + "|" + ft,
@@ -944,8 +991,28 @@ func vkC09ObsStr(o vkC09Obs) string {
 	return fmt.Sprintf("state[%s]: %s; tombstones[%s]: %s; trusted: [%s]", o.StateErr, strings.Join(st, ","), o.TombErr, vkC09SortedJoin(o.Tomb), vkC09SortedJoin(o.I))
 }
 
-// vkC09Replay runs a history on a fresh world.
+// vkC09Replay runs a history on a fresh world (again, if the loopback exchange itself failed).
 func vkC09Replay(h []vkC09Ev) (*vkC09Viol, *vkC09World, []string) {
+	for attempt := 0; ; attempt++ {
+		v, w, outs := vkC09ReplayOnce(h)
+		if v != nil && v.Key == "transient" && attempt < 4 {
+			if w != nil {
+				w.stop()
+			}
+			vkC09Transient++
+			time.Sleep(time.Duration(50*(attempt+1)) * time.Millisecond)
+			continue
+		}
+		if v != nil && v.Key == "transient" {
+			v.Key, v.Msg = "harness", "harness: "+v.Msg+" five times in a row"
+		}
+		return v, w, outs
+	}
+}
+
+var vkC09Transient int
+
+func vkC09ReplayOnce(h []vkC09Ev) (*vkC09Viol, *vkC09World, []string) {
 	w, err := vkC09NewWorld()
 	if err != nil {
 		return &vkC09Viol{Key: "harness", Msg: "harness: " + err.Error()}, nil, nil
@@ -972,16 +1039,20 @@ func vkC09CrashExpand(c *vkit.Ctx, h []vkC09Ev, w *vkC09World, power bool) *vkC0
 		return nil
 	}
 	log, pre, refB, refA := w.lastLog, w.lastPre, w.lastRefB, w.ref.clone()
-	// d = first operation of the second atomic write: from there on the first record is reported durable
-	d, creates := len(log), 0
-	for i, op := range log {
-		if op.Kind == "create" {
-			creates++
-			if creates == 2 {
-				d = i
-				break
-			}
+	// d = the point from which some record of this refresh is reported complete: the end of the first
+	// atomicGobWrite (a run of operations starting with a create) in which no operation failed
+	d := len(log) + 1
+	for i := 0; i < len(log); {
+		j, ok := i+1, !log[i].Fail
+		for j < len(log) && log[j].Kind != "create" {
+			ok = ok && !log[j].Fail
+			j++
 		}
+		if ok && log[i].Kind == "create" {
+			d = j
+			break
+		}
+		i = j
 	}
 	images := crashfs.ProcessCrash(log, pre)
 	if power {
@@ -1016,7 +1087,7 @@ func vkC09CrashExpand(c *vkit.Ctx, h []vkC09Ev, w *vkC09World, power bool) *vkC0
 			var first *vkC09Viol
 			passed := false
 			for _, ref := range cands {
-				cw := &vkC09World{ref: ref, faults: w.faults + 1, faultKind: "crash", fresh: true}
+				cw := &vkC09World{ref: ref.clone(), faults: w.faults + 1, faultKind: "crash", fresh: true}
 				if w.faultKind != "" {
 					cw.faultKind = w.faultKind + "+crash"
 				}
@@ -1032,6 +1103,16 @@ func vkC09CrashExpand(c *vkit.Ctx, h []vkC09Ev, w *vkC09World, power bool) *vkC0
 				vtime.SetOffset(offset)
 				cw.r = vkC09GetResolver(dir)
 				v, out := cw.apply(vkC09Ev{Kind: "ref", Pub: rp})
+				for attempt := 0; v != nil && v.Key == "transient" && attempt < 4; attempt++ {
+					// the exchange failed before anything was written: same instance, same directory, again
+					vkC09Transient++
+					time.Sleep(time.Duration(50*(attempt+1)) * time.Millisecond)
+					cw.ref, cw.faults = ref.clone(), w.faults+1
+					v, out = cw.apply(vkC09Ev{Kind: "ref", Pub: rp})
+				}
+				if v != nil && v.Key == "transient" {
+					v.Key, v.Msg = "harness", "harness: "+v.Msg+" five times in a row"
+				}
 				c.Add("evaluations", 1)
 				c.Add("transitions", 1)
 				c.Add("crash_recoveries", 1)
@@ -1227,7 +1308,7 @@ func TestVerifC09Hist(t *testing.T) {
 				c.Outcome(outs[len(outs)-1])
 				isNew := !seen[d]
 				// crash enumeration on refreshes that wrote: quick = those completing a revocation
-				if ev.Kind == "ref" && w.lastWrote && (c.Thorough() || (w.lastRev && ev.Fault == "")) && crashDone < crashCap {
+				if ev.Kind == "ref" && w.lastWrote && w.faultsBeforeLast == 0 && (c.Thorough() || (w.lastRev && ev.Fault == "")) && crashDone < crashCap {
 					ck := w.lastPreDg + "|" + ev.String()
 					if !crashSeen[ck] {
 						crashSeen[ck] = true
@@ -1281,6 +1362,7 @@ func TestVerifC09Hist(t *testing.T) {
 done:
 	c.Add("resolvers_fresh", int64(vkC09Fresh))
 	c.Add("resolvers_recycled", int64(vkC09Recycled))
+	c.Add("transient_exchange_failures_replayed", int64(vkC09Transient))
 	if len(frontier) == 0 {
 		c.Note("C09/hist: frontier empty — every reachable state over the alphabet visited")
 	}
